@@ -618,6 +618,67 @@ func runC07(c *Ctx, r *Report) {
 		}
 		r.Floor("R-C07.10", "functions that build the signed bytes", nfn, 2)
 	}
+	r.Doc("R-C07.11", "a link is identified by its whole identifier: nothing takes the multihash, the version or the codec of a CID alone (`Hash()`, `Prefix()`, `Version()`, `Type()`) — two different identifiers over one multihash would count as one link, and the copy that is signed under a link key would lose a link the entry still carries")
+	{
+		nid, npart := 0, 0
+		for _, fn := range p.Fns {
+			if fn.Orig != nil || fn.Body == nil || !p.firstParty(fn.Pkg.Types) || strings.HasSuffix(fn.Pkg.PkgPath, "/test") {
+				continue
+			}
+			fn := fn
+			walkNoLit(fn.Body, func(n ast.Node) bool {
+				call, ok := n.(*ast.CallExpr)
+				if !ok {
+					return true
+				}
+				cf := p.Callee(fn, call)
+				if cf == nil || cf.Pkg() == nil || cf.Pkg().Path() != "github.com/ipfs/go-cid" {
+					return true
+				}
+				sig, ok := cf.Type().(*types.Signature)
+				if !ok || sig.Recv() == nil {
+					return true
+				}
+				if nt := namedOf(sig.Recv().Type()); nt == nil || nt.Obj().Name() != "Cid" {
+					return true
+				}
+				switch cf.Name() {
+				case "String", "KeyString", "Bytes", "Encode", "StringOfBase":
+					nid++
+				case "Hash", "Prefix", "Version", "Type":
+					npart++
+					r.Violate("R-C07.11", r.Key("R-C07.11", fn, "partial-identifier", cf.Name()), call.Pos(),
+						"`"+types.ExprString(call)+"` takes only a part of the identifier: links that differ in the rest (another version or codec over the same multihash) are told apart by nothing that is built on it")
+				}
+				return true
+			})
+		}
+		if npart == 0 {
+			r.Hold("R-C07.11", r.Key("R-C07.11", nil, "whole-identifiers", ""), token.NoPos, true, fmt.Sprintf("%d renderings of whole identifiers, none of a part", nid))
+		}
+		r.Floor("R-C07.11", "renderings of whole CIDs (String, KeyString, Bytes, Encode)", nid, 20)
+	}
+	r.Doc("R-C07.12", "nothing is removed from the value that is signed: no delete on the map handed to the serialiser on the signing path (a member dropped for some entries — the references of older versions — can be changed in them without invalidating the signature)")
+	{
+		ndel := 0
+		for fn := range hashReach {
+			if fn.Body == nil {
+				continue
+			}
+			fn := fn
+			walkNoLit(fn.Body, func(n ast.Node) bool {
+				if call, ok := n.(*ast.CallExpr); ok && p.Builtin(fn, call) == "delete" {
+					ndel++
+					r.Violate("R-C07.12", r.Key("R-C07.12", fn, "delete", types.ExprString(call.Args[0])), call.Pos(),
+						"`"+types.ExprString(call)+"` removes a member from the value that is signed: for the entries on this path that part is not bound by the signature")
+				}
+				return true
+			})
+		}
+		if ndel == 0 {
+			r.Hold("R-C07.12", r.Key("R-C07.12", nil, "nothing-removed", ""), token.NoPos, true, "no delete on the signing path")
+		}
+	}
 	r.Doc("R-C07.8", "the clock reaches the signed copy as it is: the constructor stores its arguments unchanged, the copy takes both parts, the getters return their field")
 	clockValueObject(c, r, "R-C07.8")
 	verifySigDominates(c, r, "R-C07.4")
